@@ -116,6 +116,20 @@ func (c *Encoder) encodeStruct(v reflect.Value) {
 
 	vtyp := v.Type()
 
+	// fields sharing one flag bit are one optional group: it is present when any of them is non-zero,
+	// and then every field of the group is written, zero-valued ones included
+	for i := 0; i < v.NumField(); i++ {
+		info, err := parseTag(vtyp.Field(i).Tag)
+		if err != nil {
+			c.err = errors.Wrapf(err, "parsing tag of field %v", vtyp.Field(i).Name)
+			return
+		}
+
+		if info != nil && !info.ignore && !v.Field(i).IsZero() {
+			flag |= 1 << info.index
+		}
+	}
+
 	for i := 0; i < v.NumField(); i++ {
 		// THIS PART is appending to object meta value, that actually don't writing in real encodeValue
 		if hasFlagsField && flagIndex == i {
@@ -143,10 +157,8 @@ func (c *Encoder) encodeStruct(v reflect.Value) {
 			return
 		}
 
-		fieldVal := v.Field(i)
-		if !fieldVal.IsZero() {
+		if flag&(1<<info.index) != 0 {
 			// тег есть, это 100% опциональное поле
-			flag |= 1 << info.index
 			if info.encodedInBitflag {
 				continue
 			}
